@@ -19,7 +19,7 @@ try:
         t = time.time()
         p = subprocess.run(["/venv/bin/python", "/verif/check.py", i, "--tier", tier], env=env,
                            capture_output=True, text=True, cwd="/verif")
-        lines = [l for l in (p.stdout + p.stderr).strip().splitlines()]
+        lines = [l for l in (p.stdout + p.stderr).strip().splitlines() if not l.startswith("KNOWN-FINDING")]
         print(f"[{i}] rc={p.returncode} {time.time()-t:.1f}s :: " + " | ".join(lines[:3])[:700])
         rc_all |= p.returncode
 finally:
